@@ -396,6 +396,11 @@ func genC13Table(r *rand.Rand, idx int, t tmsInfo, ids []int, kind string, n int
 	g := colSpec{Name: spec.GCol, Type: spec.GType}
 	cols = append(cols[:gpos:gpos], append([]colSpec{g}, cols[gpos:]...)...)
 	spec.Cols = cols
+	if hazard || c13WideAttrs > 0 {
+		decorateTable(&spec, -1)
+	} else {
+		decorateTable(&spec, c13Force)
+	}
 	spec.Defaults = genDefaults(spec)
 	tab := c13Table{Spec: spec}
 	key := int64(r.Intn(10))
@@ -436,6 +441,27 @@ func genC13Table(r *rand.Rand, idx int, t tmsInfo, ids []int, kind string, n int
 			f.Shape = "line"
 		}
 		tab.Feats = append(tab.Feats, f)
+	}
+	if !spec.pkIsRowid() {
+		// a key that is no rowid alias: the rows are stored in the order of insertion = the order of Feats, the keys are
+		// permuted so that this is not the key order
+		ai := 0
+		for i, c := range spec.attrCols() {
+			if c.PK == 1 {
+				ai = i
+			}
+		}
+		perm := r.Perm(len(tab.Feats))
+		keys := make([]val, len(tab.Feats))
+		for i := range tab.Feats {
+			keys[i] = tab.Feats[perm[i]].Attrs[ai]
+		}
+		for i := range tab.Feats {
+			if strings.EqualFold(spec.pkType(), "TEXT") {
+				keys[i] = val{K: 7, I: keys[i].I*1000000007 + 363100012061}
+			}
+			tab.Feats[i].Attrs[ai] = keys[i]
+		}
 	}
 	tab.recordSourceExtent(r)
 	return tab
@@ -567,6 +593,12 @@ func genC13Target(r *rand.Rand, special string) (string, []string) {
 // c13WideAttrs > 0: genC13Table makes that many attribute columns (set only while a "wide bulk" case is generated)
 var c13WideAttrs int
 
+// c13Force: what decorateTable must give the tables (set only while a case of the class "attribute kinds, quoted names,
+// key order" is generated)
+var c13Force int
+
+const c13ClassKinds = "attribute kinds, quoted names, key order"
+
 func genC13Case(r *rand.Rand, id int, class string) c13Case {
 	tmss := c13Tms()
 	t := tmss[r.Intn(len(tmss))]
@@ -644,12 +676,24 @@ func genC13Case(r *rand.Rand, id int, class string) c13Case {
 	}
 	ntab := 1 + r.Intn(3)
 	kinds := []string{"polygon", "polygon", "multipolygon", "point", "line"}
+	if class == c13ClassKinds {
+		// BOOLEAN / BLOB columns, names that need quoting and a key that is no rowid alias, in a polygon table AND in a point
+		// or line table, each with several rows
+		ntab = 2
+		c13Force = 7
+		defer func() { c13Force = 0 }()
+	}
 	for i := 0; i < ntab; i++ {
 		kind := kinds[r.Intn(len(kinds))]
 		if i == 0 && r.Intn(3) > 0 {
 			kind = "polygon"
 		}
 		nfeat := r.Intn(3*7 + 2)
+		if class == c13ClassKinds {
+			kind = []string{"polygon", []string{"point", "line"}[r.Intn(2)]}[i]
+			nfeat = 4 + r.Intn(12)
+			allowOutside = false
+		}
 		if class == "degenerate polygons + keep" {
 			// -keeppointsandlines on, nothing outside the grid, and in the first table several polygons without area
 			// (rings of one or two points; in a multipolygon table as one of the parts)
@@ -698,6 +742,7 @@ func genC13Case(r *rand.Rand, id int, class string) c13Case {
 					spec = genTable(r, 10+j, spec.Srs)
 				}
 				spec.Z, spec.M, spec.SrcExtent, spec.SrcExtentMode = 0, 0, nil, "" // scaffolding, written in process by the harness
+				spec = plainNames(spec)                                            // .. with the tool's own writer: bare column names only
 				p.Tables = append(p.Tables, spec)
 				p.Calls = append(p.Calls, c12Call{Table: spec.Name, Feats: genStream(r, spec, 1+r.Intn(6), 0, &last, 0)})
 			}
@@ -834,40 +879,12 @@ func buildBinary(repo, scratch string, race bool) (string, error) {
 }
 
 func insertSourceRows(h *gs.Handle, t c13Table) error {
-	tx, err := h.Begin()
-	if err != nil {
-		return err
+	attrs := make([][]val, len(t.Feats))
+	geoms := make([]geom.Geometry, len(t.Feats))
+	for i, f := range t.Feats {
+		attrs[i], geoms[i] = f.Attrs, f.G.toGeom()
 	}
-	var names, marks []string
-	for _, c := range t.Spec.Cols {
-		names = append(names, c.Name)
-		marks = append(marks, "?")
-	}
-	stmt, err := tx.Prepare(fmt.Sprintf(`INSERT INTO "%s"(%s) VALUES(%s)`, t.Spec.Name, strings.Join(names, ","), strings.Join(marks, ",")))
-	if err != nil {
-		return err
-	}
-	for _, f := range t.Feats {
-		var args []interface{}
-		ai := 0
-		for _, c := range t.Spec.Cols {
-			if c.Name == t.Spec.GCol {
-				sb, err := gs.NewBinary(int32(t.Spec.Srs.ID), f.G.toGeom())
-				if err != nil {
-					return err
-				}
-				args = append(args, sb)
-			} else {
-				args = append(args, f.Attrs[ai].srcValue(c)) // date/times as the GeoPackage text forms
-				ai++
-			}
-		}
-		if _, err := stmt.Exec(args...); err != nil {
-			return err
-		}
-	}
-	stmt.Close()
-	return tx.Commit()
+	return insertRows(h, t.Spec, attrs, geoms) // in the order of Feats: the order the table stores the rows in
 }
 
 func resolvePath(rundir, p string) string {
@@ -961,35 +978,32 @@ func readTargetFile(file string) ([]c13OTable, error) {
 		if err != nil {
 			return nil, err
 		}
-		typeOf := map[string]string{}
-		for _, c := range cols {
-			typeOf[c.Name] = c.Type
-		}
-		rows, err := db.Query(fmt.Sprintf(`SELECT %s FROM "%s" ORDER BY rowid`, selectList(cols), t.Name)) // date/time cells raw
+		// the rows in the order the table stores them (rowid order = insertion order, NOT key order); attribute cells raw,
+		// each with its typeof
+		rows, err := db.Query(fmt.Sprintf(`SELECT %s FROM %s ORDER BY rowid`, selectList(cols, t.GCol), qid(t.Name)))
 		if err != nil {
 			return nil, err
 		}
-		t.Cols, _ = rows.Columns()
+		t.Cols = nil
+		for _, c := range cols {
+			t.Cols = append(t.Cols, c.Name)
+		}
 		for rows.Next() {
-			vals := make([]interface{}, len(t.Cols))
-			ptrs := make([]interface{}, len(t.Cols))
-			for k := range vals {
-				ptrs[k] = &vals[k]
-			}
-			if err := rows.Scan(ptrs...); err != nil {
+			vals, err := scanCells(rows, len(cols))
+			if err != nil {
 				rows.Close()
 				return nil, err
 			}
-			row := make([]c13Cell, len(t.Cols))
-			for k, n := range t.Cols {
-				if n != t.GCol {
-					row[k] = c13Cell{V: valOfCol(vals[k], typeOf[n])}
+			row := make([]c13Cell, len(cols))
+			for k, c := range cols {
+				if c.Name != t.GCol {
+					row[k] = c13Cell{V: cellVal(vals[2*k], fmt.Sprint(vals[2*k+1]), c.Type)}
 					continue
 				}
 				row[k].IsGeom = true
-				blob, ok := vals[k].([]byte)
+				blob, ok := vals[2*k].([]byte)
 				if !ok {
-					row[k].Err = fmt.Sprintf("geometry cell is %T", vals[k])
+					row[k].Err = fmt.Sprintf("geometry cell is %T", vals[2*k])
 					continue
 				}
 				sb, err := gs.DecodeGeometry(blob)
@@ -1002,7 +1016,7 @@ func readTargetFile(file string) ([]c13OTable, error) {
 			t.Rows = append(t.Rows, row)
 		}
 		rows.Close()
-		_ = db.QueryRow(fmt.Sprintf(`SELECT count(*) FROM "rtree_%s_%s"`, t.Name, t.GCol)).Scan(&t.RtreeCount)
+		_ = db.QueryRow(fmt.Sprintf(`SELECT count(*) FROM %s`, qid("rtree_"+t.Name+"_"+t.GCol))).Scan(&t.RtreeCount)
 	}
 	return tabs, nil
 }
@@ -1318,6 +1332,14 @@ func c13Oracle(k c13Case, run c13Run, exp *c13Expect, rundir string) []c12Proble
 				bad("table order / name in "+p, ot.Name, t.Spec.Name)
 				continue
 			}
+			var wantCols []string
+			for _, c := range t.Spec.Cols {
+				wantCols = append(wantCols, c.Name)
+			}
+			if !reflect.DeepEqual(ot.Cols, wantCols) {
+				bad(fmt.Sprintf("%s table %s: column names differ from the source's", p, ot.Name), ot.Cols, wantCols)
+				continue
+			}
 			rows := exp.Rows[id][ti]
 			if len(ot.Rows) != len(rows) {
 				bad(fmt.Sprintf("%s table %s: %d rows, the library composition gives %d", p, ot.Name, len(ot.Rows), len(rows)), len(ot.Rows), len(rows))
@@ -1336,7 +1358,7 @@ func c13Oracle(k c13Case, run c13Run, exp *c13Expect, rundir string) []c12Proble
 						continue
 					}
 					if cell.IsGeom || cell.V != er.Attrs[ai] {
-						bad(fmt.Sprintf("%s table %s row %d column %s: attribute differs from the source feature", p, ot.Name, ri, c.Name), cell.V, er.Attrs[ai])
+						bad(fmt.Sprintf("%s table %s row %d column %s (%s): attribute (value and storage class) differs from the source feature in that position of the source's stored order", p, ot.Name, ri, c.Name, c.Type), cell.V, er.Attrs[ai])
 					}
 					ai++
 				}
@@ -1563,7 +1585,7 @@ func genFormat(r *rand.Rand) string {
 
 func runC13(c *hc.Ctx) error {
 	c.CorrInit("Texel.Corr.C13", "theories/Corr/C13.v", 12)
-	c.Sum.Rule = "random source GeoPackages (1-3 tables: polygon / multipolygon / point / linestring, 0-4 attribute columns INTEGER / REAL / TEXT / DATETIME / DATE / TIMESTAMP (date/times written to the source in the GeoPackage text forms 2023-05-17 and 2023-05-17T23:59:59.891Z: midnight, whole seconds, non-zero milliseconds, nanoseconds, before 1970, NULL), geometry column anywhere, 0-22 features; " +
+	c.Sum.Rule = "random source GeoPackages (1-3 tables: polygon / multipolygon / point / linestring; as a function of the table: BOOLEAN / boolean columns (cells NULL, 0, 1) and BLOB columns (arbitrary bytes: empty, NUL, invalid UTF-8, the bytes of a pool text), column names that must be quoted (SQL keywords, space, dash, leading digit, double quote, comma ..; for the key and the geometry column what the GeoPackage library tolerates), a primary key that is no rowid alias (INT / TEXT PRIMARY KEY) with the rows inserted in an order that is NOT the key order -- and a class of its own with all of these in a polygon table and a point / line table of 4-15 rows; 0-4 attribute columns INTEGER / REAL / TEXT / DATETIME / DATE / TIMESTAMP (date/times written to the source in the GeoPackage text forms 2023-05-17 and 2023-05-17T23:59:59.891Z: midnight, whole seconds, non-zero milliseconds, nanoseconds, before 1970, NULL), geometry column anywhere, 0-22 features; " +
 		"the source's gpkg_geometry_columns z / m prohibited (0) or optional (2), its recorded extent NULL / exact / loose (larger) / stale (elsewhere); polygons: rings of one point or of two distinct points (no area: WKB POLYGON((a,b,a)); also as one part of a multipolygon; a class of its own with -keeppointsandlines on), blobs of a few pixels of a requested level, sub-pixel (collapse), dumbbells whose corridor is below a coarse pixel (split), with holes, (partly) outside the grid) " +
 		"x {NetherlandsRDNewQuad, WebMercatorQuad} x 1-3 distinct ids, in a quarter of the cases one of them listed two or three times anywhere in the list ([6,5,6], [5,5], [4,7,7,7]) x page size {default, 1..7} x keep/ignore-outside/reverse flags (long names or aliases) x target paths (24 fixed shapes + random stems over [abgkp.-_09GP] with extensions {.gpkg,'',.pkg,.g,.GPKG,'.',.sqlite}; in a quarter of the random ones, and in half of the cases with a pre-existing target file, tokens with a meaning to fmt {%, %v, %d, %20, %%, %s, 100%} or to glob patterns {[v2], *, \\, {a,b}, [1], [, ], [a-c]} in the directory, the stem and / or the extension) " +
 		"(relative, ./, nested, dots in directories, several dots, no extension, hidden file, unclean a//b and a/../b, absolute) x " +
@@ -1573,6 +1595,7 @@ func runC13(c *hc.Ctx) error {
 		"FmtCases: fmt.Sprintf(format, id) on random formats over plain characters, %, %%, %v and non-existent verbs. " +
 		"distinct = distinct (class, tms, ids, flags, target shape, table kinds); non-trivial = at least one polygon feature whose result differs between ids or is dropped/split"
 	c.Sum.Oracle = "exit status; exactly one GeoPackage per DISTINCT requested id (an id listed more than once counts once: exit 0, every file complete) at the path with _<id> inserted before the extension (computed by the harness from the -t argument with strings.LastIndex and filepath.Clean: neither package path nor fmt) and no other new file; a bystander file next to a target is still there, unchanged, after any run; per file the source's tables in order; " +
+		"every table is read back in the order it STORES the rows (ORDER BY rowid, not by key) and compared with the source's stored order; attribute cells are compared by value AND storage class (read raw with typeof: TEXT and BLOB of the same bytes differ; a BOOLEAN cell is the integer 0 / 1); column names equal the source's; " +
 		"polygon / multipolygon tables: per source feature in source order the attributes (date/time cells read raw from the target and compared with the source value as INSTANTS, to the nanosecond: the unchanged tool already rewrites their text layout) and EXACTLY the geometry snap.SnapPolygon returns for that id under the given flags " +
 		"(one polygon, or a multipolygon when several; multipolygon parts merged in part order; omitted when nothing is returned), other tables row-for-row copies; " +
 		"rtree entries = non-empty geometries; recorded extent of every table = bounding box of the geometries written to it (NULL if none), whatever the source records; a table whose source z / m is 'optional' is processed like any other; with -overwrite no table or row of an earlier file survives; invalid tile matrix set / ids or a missing source: non-zero exit, no file created, removed or changed; " +
@@ -1584,7 +1607,8 @@ func runC13(c *hc.Ctx) error {
 		"modelled: SQLite, go-sqlite3, the GeoPackage library, the verif SpatiaLite stand-in (as C12)",
 		"geometries are compared after one encode/decode through the GeoPackage binary codec (exact on float64)",
 	}
-	c.Sum.Assumptions = []string{"target paths without '?' (go-sqlite3 reads a '?' in the file name as the start of the DSN parameters: the unchanged tool writes -t 'q?d/x.gpkg' to a file named q); any other printable character, '%' and glob metacharacters included", "the tile matrix ids may be listed with repetitions: the request is the set of distinct ids", "date/time attributes are ISO 8601 texts in UTC in columns declared DATE / DATETIME / TIMESTAMP (the types the SQLite driver converts); equality of such a cell = equality of the instant", "page size > 0", "attribute values match the column affinity; column names need no quoting"}
+	c.Sum.Assumptions = []string{"target paths without '?' (go-sqlite3 reads a '?' in the file name as the start of the DSN parameters: the unchanged tool writes -t 'q?d/x.gpkg' to a file named q); any other printable character, '%' and glob metacharacters included", "the tile matrix ids may be listed with repetitions: the request is the set of distinct ids", "date/time attributes are ISO 8601 texts in UTC in columns declared DATE / DATETIME / TIMESTAMP (the types the SQLite driver converts); equality of such a cell = equality of the instant", "page size > 0", "attribute values keep their storage class in their column (SQLite would convert them otherwise, also in the source)",
+		"column names are any non-empty texts, distinct without regard to case; not generated because the GeoPackage library fails on them: geometry column names that cannot continue a bare identifier, a double quote in the primary key name, quotes in table names, a feature table without primary key, a geometry column registered in another letter case than the table declares; BOOLEAN cells are NULL / 0 / 1"}
 
 	scratch, err := os.MkdirTemp("", "verif-c13-")
 	if err != nil {
@@ -1625,7 +1649,7 @@ func runC13(c *hc.Ctx) error {
 		if c.Search {
 			n *= 3
 		}
-		classes := []string{"fresh", "fresh", "fresh", "fresh", "pre-existing + overwrite", "pre-existing + overwrite", "pre-existing, no overwrite", "invalid tms", "no source", "degenerate polygons + keep"}
+		classes := []string{"fresh", "fresh", "fresh", "fresh", "pre-existing + overwrite", "pre-existing + overwrite", "pre-existing, no overwrite", "invalid tms", "no source", "degenerate polygons + keep", c13ClassKinds, c13ClassKinds}
 		for i := 0; i < n; i++ {
 			cl := classes[c.Rng.Intn(len(classes))]
 			if i < len(classes) {
@@ -1713,6 +1737,11 @@ func runC13(c *hc.Ctx) error {
 			c.Count("source records extent: " + t.Spec.SrcExtentMode)
 			c.Count(fmt.Sprintf("source table z=%d m=%d", t.Spec.Z, t.Spec.M))
 			c.Count(defaultsClass(t.Spec))
+			for _, kind := range tableKinds(t.Spec) {
+				if len(t.Feats) > 1 {
+					c.Count(kind + " (source table with 2 or more rows)")
+				}
+			}
 			for _, f := range t.Feats {
 				degenerate = degenerate || strings.Contains(f.Shape, "degenerate")
 			}
